@@ -473,11 +473,9 @@ theorem extend_enum_exact (env : Env) (exts : List TypeDef) (t : TypeD) (hk : t.
   rw [this]
   rfl
 
-/-- C11 with extensions, full statement under the hypothesis that excludes finding S8 (`NoS8`: every member of the
-    document builds to the same thing over the definitions alone and over the merged definitions). NOT proved yet:
-    what is machine-checked is its extension-free case (`build_exact_noext`), the exact merge step for every
-    member kind (`extension_merge_exact`, instance `extend_enum_exact`), exact collection (`collect_ok`,
-    `collect_exact`) and the refutation of the statement without `NoS8` (`build_exact_refuted`). -/
+/-- C11 with extensions, compact form of the statement under a hypothesis that excludes finding S8. PROVED in
+    `Props/C11_merge.lean` as `build_exact_partial` (hypotheses spelled out in `ValidExt`; the member-level NoS8
+    hypothesis there is the weaker `mergedSame`/`directivesSame`), with `build_perm` for definition order. -/
 def BuildExactPartialStatement : Prop :=
   ∀ (doc : Doc) (d : SchemaD), SdlValid doc → Declared doc = some d →
     (∀ a : InputValDef, buildArgument (Env.of (typeDefs doc)) a = buildArgument (Env.of (merged doc)) a) →
